@@ -1,14 +1,14 @@
 (* C11: exclusion is surgical. Excluding a field is the same as deleting it from the descriptor, and
-   nothing else changes -- up to three precise deviations, each with a computed counterexample in
+   nothing else changes -- up to two precise deviations, each with a computed counterexample in
    ExclExamples below:
    1. the zero values of the Go structs carried by the IR (m_zero, fi_parent, fi_inner): the Go struct
       keeps the excluded field, the struct of the descriptor without the field does not. The theorems are
       stated up to these (ir_eq_mod_zero / rz_msg erase_zero) and literally, with the zero values of the
       "deleted" side recomputed from the original descriptors (rz_msg (zero_from table));
-   2. a message that loses its last field: all fields excluded gives a message with no field and
-      m_empty = false, no field declared gives the placeholder field and m_empty = true (hypothesis Hne);
-   3. the entry "D.f" of the exclusion list is also a path: below the root D it also hits the field f of
+   2. the entry "D.f" of the exclusion list is also a path: below the root D it also hits the field f of
       a message embedded in D (hypothesis root_safe; okp for the nested occurrences).
+   A message that loses its last field is no exception: all fields excluded and no field declared both give
+   the placeholder field and m_empty = true (ExclExamples.emptied_same).
    Message-qualified form: build_field_list_excl(_lit), build_message_excl(_top/_cfg/_cfg_lit),
    ok_roots_excl(_lit), schemas_excl, converters_excl. Path form: build_message_off_path (nothing else
    changes), build_message_at_path (the occurrence is built from its descriptor without the field). *)
@@ -330,12 +330,9 @@ Section Excl.
      on the paths from which the key cannot be formed *)
   Hypothesis HK : forall p, o_excluded cfg K p = true.
   Hypothesis Hagree : forall tn p, tn <> K -> okp K p -> o_excluded cfg tn p = e' tn p.
-  (* no message loses its last field (a message without fields gets the placeholder field, a message
-     whose fields are all excluded does not) *)
   (* the two rewritings of the Go zero values agree on the zero values of the two tables *)
   Hypothesis HZ : forall n,
     Z1 n (zero_struct table (S (List.length table)) n) = Z2 n (zero_struct table' (S (List.length table')) n).
-  Hypothesis Hne : forall d, In d table -> md_fields d <> [] -> md_fields (del_key K d) <> [].
 
   Definition fpath_of (path : string) (g : fdesc) : string :=
     if fd_embed g then path else path ++ "." ++ fd_name g.
@@ -381,17 +378,18 @@ Section Excl.
   Proof.
     intros IH d path Hd Hl. rewrite !build_message_S.
     pose proof (build_field_list_excl _ _ d path (md_fields d) IH Hl) as HL.
-    pose proof (Hne d Hd) as Hn.
-    change (md_fields (del_key K d)) with (filter (keep_field K d) (md_fields d)) in *.
+    change (md_fields (del_key K d)) with (filter (keep_field K d) (md_fields d)).
     change (md_name (del_key K d)) with (md_name d). change (md_oneofs (del_key K d)) with (md_oneofs d).
     change (o_injected cfg' path) with (o_injected cfg path). change (o_sort cfg') with (o_sort cfg).
-    destruct (md_fields d) as [|g0 r0] eqn:Ef; [cbn [filter bbind bmap rz_msg]; now rewrite HZ|].
-    destruct (filter (keep_field K d) (g0 :: r0)) as [|g1 r1] eqn:Eg; [exfalso; now apply Hn|].
-    destruct (build_field_list cfg table (build_message cfg table fuel) d path (g0 :: r0)) as [y|er|],
-             (build_field_list cfg' table' (build_message cfg' table' fuel) (del_key K d) path (g1 :: r1)) as [y'|er'|];
+    destruct (build_field_list cfg table (build_message cfg table fuel) d path (md_fields d)) as [y|er|],
+             (build_field_list cfg' table' (build_message cfg' table' fuel) (del_key K d) path
+                               (filter (keep_field K d) (md_fields d))) as [y'|er'|];
       cbn [bmap] in HL; try discriminate; cbn [bbind bmap];
       [|injection HL as HL; now rewrite HL|reflexivity].
-    injection HL as HL. cbn [rz_msg]. rewrite HZ. f_equal. f_equal.
+    injection HL as HL. cbn [rz_msg]. rewrite HZ.
+    (* the two lists of fields are empty together: the placeholder on both sides, or none *)
+    destruct y as [|c r], y' as [|c' r']; try discriminate HL; [reflexivity|].
+    f_equal. f_equal.
     destruct (o_sort cfg); [|exact HL].
     rewrite <- (sort_by_map _ (rz_field Z1)), <- (sort_by_map _ (rz_field Z2)) by apply rz_field_name.
     now rewrite HL.
@@ -471,7 +469,6 @@ Section ExclCfg.
   Qed.
 
   Variable table : list mdesc.
-  Hypothesis Hne : forall d, In d table -> md_fields d <> [] -> md_fields (del_key K d) <> [].
 
   (* 2. message level, up to the zero values *)
   Theorem build_message_excl_cfg fuel d path :
@@ -582,7 +579,6 @@ Section ExclRoots.
   Variable f : file.
   Variables Z1 Z2 : string -> goval -> goval.
   Hypothesis Hl : forall x, In x (c_exclude cfg) <-> x = K \/ In x l'.
-  Hypothesis Hne : forall d, In d (all_msgs f) -> md_fields d <> [] -> md_fields (del_key K d) <> [].
   Hypothesis Hsafe : forall d, In d (all_msgs f) -> mem_str (md_name d) (c_types cfg) = true -> root_safe K d.
   Hypothesis HZ : forall n,
     Z1 n (zero_struct (all_msgs f) (S (List.length (all_msgs f))) n) =
@@ -610,7 +606,7 @@ Section ExclRoots.
       destruct (mem_str (md_name d) (c_types cfg)) eqn:Hs; [|reflexivity].
       rewrite map_length.
       pose proof (build_message_excl_top (obs_of cfg) (flag l') K table Z1 Z2
-                    (excl_key cfg l' K Hl) (excl_agree cfg l' K Hl) HZ Hne
+                    (excl_key cfg l' K Hl) (excl_agree cfg l' K Hl) HZ
                     (S (List.length table)) d (md_name d) Hd (Hsafe d Hd Hs)) as HB.
       destruct (build_message (obs_of cfg) table (S (List.length table)) d (md_name d)) as [m|er|],
                (build_message (with_excl (flag l') (obs_of cfg)) (map (del_key K) table)
@@ -626,11 +622,10 @@ End ExclRoots.
 (* up to the zero values *)
 Theorem ok_roots_excl cfg l' K f :
   (forall x, In x (c_exclude cfg) <-> x = K \/ In x l') ->
-  (forall d, In d (all_msgs f) -> md_fields d <> [] -> md_fields (del_key K d) <> []) ->
   (forall d, In d (all_msgs f) -> mem_str (md_name d) (c_types cfg) = true -> root_safe K d) ->
   rz_roots erase_zero (ok_roots cfg f) =
   rz_roots erase_zero (ok_roots (with_exclude l' cfg) (del_file K f)).
-Proof. intros Hl Hne Hs. now apply ok_roots_excl_gen. Qed.
+Proof. intros Hl Hs. now apply ok_roots_excl_gen. Qed.
 
 Lemma rz_roots_keep l : rz_roots keep_zero l = l.
 Proof.
@@ -641,12 +636,11 @@ Qed.
 (* literally *)
 Theorem ok_roots_excl_lit cfg l' K f :
   (forall x, In x (c_exclude cfg) <-> x = K \/ In x l') ->
-  (forall d, In d (all_msgs f) -> md_fields d <> [] -> md_fields (del_key K d) <> []) ->
   (forall d, In d (all_msgs f) -> mem_str (md_name d) (c_types cfg) = true -> root_safe K d) ->
   ok_roots cfg f =
   rz_roots (zero_from (all_msgs f)) (ok_roots (with_exclude l' cfg) (del_file K f)).
 Proof.
-  intros Hl Hne Hs. rewrite <- (rz_roots_keep (ok_roots cfg f)). now apply ok_roots_excl_gen.
+  intros Hl Hs. rewrite <- (rz_roots_keep (ok_roots cfg f)). now apply ok_roots_excl_gen.
 Qed.
 
 (* ------------------------------------------------------------------------------------- *)
@@ -717,12 +711,11 @@ Qed.
 (* the schemas of the generated types: excluding = deleting, for every schema hook *)
 Corollary schemas_excl cfg l' K f :
   (forall x, In x (c_exclude cfg) <-> x = K \/ In x l') ->
-  (forall d, In d (all_msgs f) -> md_fields d <> [] -> md_fields (del_key K d) <> []) ->
   (forall d, In d (all_msgs f) -> mem_str (md_name d) (c_types cfg) = true -> root_safe K d) ->
   forall h, schemas h (ok_roots cfg f) = schemas h (ok_roots (with_exclude l' cfg) (del_file K f)).
 Proof.
-  intros Hl Hne Hs h.
-  rewrite <- (schemas_rz h erase_zero (ok_roots cfg f)), (ok_roots_excl cfg l' K f Hl Hne Hs).
+  intros Hl Hs h.
+  rewrite <- (schemas_rz h erase_zero (ok_roots cfg f)), (ok_roots_excl cfg l' K f Hl Hs).
   apply schemas_rz.
 Qed.
 
@@ -730,13 +723,12 @@ Qed.
    type with the field deleted, run on the Go structs of the original descriptors *)
 Corollary converters_excl cfg l' K f :
   (forall x, In x (c_exclude cfg) <-> x = K \/ In x l') ->
-  (forall d, In d (all_msgs f) -> md_fields d <> [] -> md_fields (del_key K d) <> []) ->
   (forall d, In d (all_msgs f) -> mem_str (md_name d) (c_types cfg) = true -> root_safe K d) ->
   forall hook_to hook_from,
     map (fun p => (fst p, (copy_to hook_to (snd p), copy_from hook_from (snd p)))) (ok_roots cfg f) =
     map (fun p => (fst p, (copy_to hook_to (snd p), copy_from hook_from (snd p))))
         (rz_roots (zero_from (all_msgs f)) (ok_roots (with_exclude l' cfg) (del_file K f))).
-Proof. intros Hl Hne Hs ht hf. now rewrite <- (ok_roots_excl_lit cfg l' K f Hl Hne Hs). Qed.
+Proof. intros Hl Hs ht hf. now rewrite <- (ok_roots_excl_lit cfg l' K f Hl Hs). Qed.
 
 (* ------------------------------------------------------------------------------------- *)
 (* 1. field level, literally: same table, same builder of nested messages *)
@@ -827,9 +819,7 @@ Section ExclPath.
     rewrite del_key_table in H.
     specialize (H (fun p => HP P p (or_introl eq_refl))
                   (fun tn p Ht Hq => Hagree tn p Ht (proj1 Hq)) (fun n => eq_refl)).
-    assert (Hne : forall d0, In d0 table -> md_fields d0 <> [] -> md_fields (del_key P d0) <> []).
-    { intros d0 H0. now rewrite del_key_id. }
-    specialize (H Hne fuel d path Hd Hp). rewrite !bmap_keep, del_key_id in H by exact Hd. exact H.
+    specialize (H fuel d path Hd Hp). rewrite !bmap_keep, del_key_id in H by exact Hd. exact H.
   Qed.
 
   (* 3b. the occurrence itself: the message at path [par] is built as from its descriptor without the
@@ -841,10 +831,9 @@ Section ExclPath.
   Theorem build_message_at_path fuel d par fn :
     P = par ++ "." ++ fn -> nodotb fn = true -> In d table ->
     (forall g, In g (md_fields d) -> fd_embed g = false) ->
-    (md_fields d <> [] -> md_fields (del_here fn d) <> []) ->
     build_message cfg table fuel d par = build_message (with_excl e' cfg) table fuel (del_here fn d) par.
   Proof.
-    intros EP Hfn Hd Hemb Hne. destruct fuel as [|fuel]; [reflexivity|].
+    intros EP Hfn Hd Hemb. destruct fuel as [|fuel]; [reflexivity|].
     rewrite !build_message_S.
     change (md_name (del_here fn d)) with (md_name d). change (md_oneofs (del_here fn d)) with (md_oneofs d).
     change (o_injected (with_excl e' cfg) par) with (o_injected cfg par).
@@ -873,10 +862,7 @@ Section ExclPath.
         rewrite del_key_table, !bmap_fields_keep in Hv. rewrite Hv, IH'; [reflexivity|].
         intros d1 H1. rewrite !bmap_keep, del_key_id by exact H1. now apply build_message_off_path. }
     specialize (HL (md_fields d) (incl_refl _)).
-    change (md_fields (del_here fn d)) with (filter (fun g => negb (String.eqb (fd_name g) fn)) (md_fields d)) in *.
-    destruct (md_fields d) as [|g0 r0] eqn:Ef; [reflexivity|].
-    destruct (filter (fun g => negb (String.eqb (fd_name g) fn)) (g0 :: r0)) as [|g1 r1] eqn:Eg;
-      [exfalso; apply Hne; [discriminate|reflexivity]|].
+    change (md_fields (del_here fn d)) with (filter (fun g => negb (String.eqb (fd_name g) fn)) (md_fields d)).
     now rewrite HL.
   Qed.
 End ExclPath.
@@ -910,11 +896,10 @@ Section ExclPathCfg.
   Theorem build_message_at_path_cfg fuel d par fn :
     P = par ++ "." ++ fn -> nodotb fn = true -> In d table ->
     (forall g, In g (md_fields d) -> fd_embed g = false) ->
-    (md_fields d <> [] -> md_fields (del_here fn d) <> []) ->
     build_message (obs_of cfg) table fuel d par =
     build_message (obs_of (with_exclude l' cfg)) table fuel (del_here fn d) par.
   Proof.
-    intros EP Hfn Hd He Hne. rewrite obs_of_with_exclude.
+    intros EP Hfn Hd He. rewrite obs_of_with_exclude.
     apply (build_message_at_path (obs_of cfg) (flag l') P table path_key path_agree Hnot); assumption.
   Qed.
 End ExclPathCfg.
@@ -984,11 +969,6 @@ Module ExclExamples.
   (* the hypotheses of the theorems, for the key "Leaf.a" (Leaf occurs at seven places, three depths) *)
   Lemma hl sort K : forall x, In x (c_exclude (cfg0 sort [K])) <-> x = K \/ In x [].
   Proof. intros x. cbn. intuition. Qed.
-  Lemma hne_leaf_a : forall d, In d (all_msgs file0) -> md_fields d <> [] -> md_fields (del_key "Leaf.a" d) <> [].
-  Proof.
-    apply (in_table (fun d => md_fields d <> [] -> md_fields (del_key "Leaf.a" d) <> []));
-      intros _; vm_compute; discriminate.
-  Qed.
   Lemma hsafe_leaf_a sort : forall d, In d (all_msgs file0) ->
     mem_str (md_name d) (c_types (cfg0 sort ["Leaf.a"])) = true -> root_safe "Leaf.a" d.
   Proof.
@@ -1005,18 +985,18 @@ Module ExclExamples.
   Example roots_leaf_a sort :
     rz_roots erase_zero (ok_roots (cfg0 sort ["Leaf.a"]) file0) =
     rz_roots erase_zero (ok_roots (with_exclude [] (cfg0 sort ["Leaf.a"])) (del_file "Leaf.a" file0)).
-  Proof. apply ok_roots_excl; [apply hl|apply hne_leaf_a|apply hsafe_leaf_a]. Qed.
+  Proof. apply ok_roots_excl; [apply hl|apply hsafe_leaf_a]. Qed.
 
   Example roots_leaf_a_lit sort :
     ok_roots (cfg0 sort ["Leaf.a"]) file0 =
     rz_roots (zero_from (all_msgs file0))
              (ok_roots (with_exclude [] (cfg0 sort ["Leaf.a"])) (del_file "Leaf.a" file0)).
-  Proof. apply ok_roots_excl_lit; [apply hl|apply hne_leaf_a|apply hsafe_leaf_a]. Qed.
+  Proof. apply ok_roots_excl_lit; [apply hl|apply hsafe_leaf_a]. Qed.
 
   Example schemas_leaf_a sort h :
     schemas h (ok_roots (cfg0 sort ["Leaf.a"]) file0) =
     schemas h (ok_roots (cfg0 sort []) (del_file "Leaf.a" file0)).
-  Proof. apply (schemas_excl (cfg0 sort ["Leaf.a"]) [] "Leaf.a" file0 (hl sort _) hne_leaf_a (hsafe_leaf_a sort)). Qed.
+  Proof. apply (schemas_excl (cfg0 sort ["Leaf.a"]) [] "Leaf.a" file0 (hl sort _) (hsafe_leaf_a sort)). Qed.
 
   (* the descriptor operation is the expected one: field a of Leaf goes, nothing else *)
   Example del_is_del_field : map (del_key "Leaf.a") table = map (del_field "Leaf" "a") table.
@@ -1053,20 +1033,29 @@ Module ExclExamples.
     = (BOk (GStruct [("A", GPrim (PStr "")); ("U", GPrim (PInt 0))]), BOk (GStruct [("U", GPrim (PInt 0))])).
   Proof. vm_compute. reflexivity. Qed.
 
-  (* DEVIATION 2: a message all of whose fields are excluded is generated with no field at all and is
-     not marked empty; the message without fields gets the placeholder field and is marked empty *)
+  (* NO DEVIATION for a message that loses its last field: all its fields excluded, or no field declared,
+     both give exactly the placeholder field and m_empty = true; by computation and by the theorem *)
   Definition d_one : mdesc :=
     {| md_name := "One"; md_comment := ""; md_oneofs := [];
        md_fields := [fd "a" 1 (PScalar SString) false None false None] |}.
-  Example emptied_differs :
-    (bmap (fun m => (List.length (m_fields m), m_empty m))
+  Example emptied_same :
+    (bmap (fun m => (m_fields m, m_empty m))
           (build_message (obs_of (cfg0 false ["One.a"])) [d_one] 2 d_one "One"),
-     bmap (fun m => (List.length (m_fields m), m_empty m))
+     bmap (fun m => (m_fields m, m_empty m))
           (build_message (obs_of (cfg0 false [])) [del_key "One.a" d_one] 2 (del_key "One.a" d_one) "One"))
-    = (BOk (0%nat, false), BOk (1%nat, true)).
+    = (BOk ([placeholder_field "One"], true), BOk ([placeholder_field "One"], true)).
   Proof. vm_compute. reflexivity. Qed.
+  Example emptied_same_by_theorem :
+    build_message (obs_of (cfg0 false ["One.a"])) [d_one] 2 d_one "One" =
+    bmap (rz_msg (zero_from [d_one]))
+         (build_message (obs_of (cfg0 false [])) [del_key "One.a" d_one] 2 (del_key "One.a" d_one) "One").
+  Proof.
+    apply (build_message_excl_cfg_top (cfg0 false ["One.a"]) [] "One.a" (hl false _) [d_one] 2 d_one "One").
+    - now left.
+    - intros g [<-|[]] N. now contradiction N.
+  Qed.
 
-  (* DEVIATION 3: the key "D.f" is also a path: at the root D it also hits the field f of a message
+  (* DEVIATION 2: the key "D.f" is also a path: at the root D it also hits the field f of a message
      embedded in D (whose fields have the paths "D.<name>") *)
   Definition d_mid2 : mdesc :=
     {| md_name := "Mid"; md_comment := ""; md_oneofs := [];
@@ -1105,7 +1094,6 @@ Module ExclExamples.
              (hnot "Root.mid.l1.a" eq_refl) 5 d_leaf "Root.mid.l1" "a"); try reflexivity.
     - cbn. auto.
     - intros g [<-|[<-|[]]]; reflexivity.
-    - intros _. vm_compute. discriminate.
   Qed.
 
   Example off_path :
